@@ -1,5 +1,11 @@
 import Driver.Common
-/-! Driver of the `cache` family (stub: no stream yet). -/
+import Driver.Cache
+/-! Driver of the `cache` family (C27, C29, C30). -/
 
 def main (args : List String) : IO UInt32 :=
-  Drv.mainWith [] args
+  Drv.mainWith [
+    ("wlru", Drv.Wlru.stream),
+    ("sem", Drv.Sem.stream),
+    ("semtimed", Drv.SemTimed.stream),
+    ("cprod", Drv.CProd.stream)
+  ] args
